@@ -880,8 +880,8 @@ func (p *procEnv) runScript(sc *scriptCase) *scriptOut {
 		calls = genScript(p.sigs, sc.Seed, sc.N)
 	}
 	so := &scriptOut{ID: sc.ID, Needles: len(p.needles), Skipped: p.skipped}
-	if p.blockedCalls >= 2 {
-		// two calls of this process are blocked for good (already reported): do not
+	if p.blockedCalls >= 1 {
+		// a call of this process is blocked for good (already reported): do not
 		// spend the watchdog on every further script
 		so.GaveUp = "process-has-blocked-calls"
 		return so
